@@ -590,6 +590,30 @@ def _identity_hooks(prog: Program, col: Collector, refs: Refs, cat: Catalogue):
         r = single_return(m) if m else None
         col.check(m is not None and isinstance(r, ast.Name) and r.id == m.positional[0], f"funsor.ops.op::Op.{name}", "returns self",
                   f"Op.{name} does not return self: copies of an op are distinct objects", m.loc() if m else op.module.loc(op.node))
+    op_reduce_clause(prog, col)
+    # domains
+    dm = prog.modules.get("funsor.domains")
+    regs = [n for n in ast.walk(dm.tree) if isinstance(n, ast.Call) and refs.resolve(n.func) == "copyreg.pickle"]
+    for c in ("ArrayType", "BintType", "RealsType"):
+        got = [n for n in regs if n.args and norm(n.args[0]) == c]
+        col.check(bool(got) and all(len(n.args) == 2 and refs.resolve(n.args[1]) == "funsor.domains._pickle_array" for n in got),
+                  f"funsor.domains::copyreg.pickle({c})", "domain classes pickle through _pickle_array",
+                  f"{c} is not registered with copyreg to pickle through _pickle_array: unpickled domains are not interned", dm.rel)
+    pa = prog.funcs.get("funsor.domains::_pickle_array")
+    if pa is None:
+        col.violation("funsor.domains::_pickle_array", "_pickle_array not found", dm.rel)
+    else:
+        rets = [n for n in walk_no_nested(pa.node) if isinstance(n, ast.Return)]
+        good = any(isinstance(r.value, ast.Tuple) and len(r.value.elts) == 2 and refs.resolve(r.value.elts[0]) == "operator.getitem"
+                   and isinstance(r.value.elts[1], ast.Tuple) and norm(r.value.elts[1].elts[0]) == "Array" for r in rets)
+        col.check(good, "funsor.domains::_pickle_array", "parametrised domains are rebuilt with Array[dtype, shape] (the interning __getitem__)",
+                  "_pickle_array does not rebuild domains through Array[...]: unpickled domains are new classes", pa.loc())
+
+
+def op_reduce_clause(prog: Program, col: Collector):
+    """Op.__reduce__ rebuilds through type(self) (the interning metaclass) with ALL the parameters of the instance (shared with C18:
+    a pickled program must keep the parameters of its ops)."""
+    op = prog.classes["funsor.ops.op.Op"]
     m = op.methods.get("__reduce__")
     rets = [n.value for n in walk_no_nested(m.node) if isinstance(n, ast.Return) and n.value is not None] if m else []
     ok = bool(rets) and all(isinstance(r, ast.Tuple) and len(r.elts) == 2 and isinstance(r.elts[1], ast.Tuple) and r.elts[1].elts
@@ -621,23 +645,6 @@ def _identity_hooks(prog: Program, col: Collector, refs: Refs, cat: Catalogue):
                           "(axis=0, dim=0) unpickles as a different op (and a term built from it as a different term)", m.loc())
             else:
                 col.unresolved(construct, f"parameters expression `{norm(e)}` not recognised", m.loc())
-    # domains
-    dm = prog.modules.get("funsor.domains")
-    regs = [n for n in ast.walk(dm.tree) if isinstance(n, ast.Call) and refs.resolve(n.func) == "copyreg.pickle"]
-    for c in ("ArrayType", "BintType", "RealsType"):
-        got = [n for n in regs if n.args and norm(n.args[0]) == c]
-        col.check(bool(got) and all(len(n.args) == 2 and refs.resolve(n.args[1]) == "funsor.domains._pickle_array" for n in got),
-                  f"funsor.domains::copyreg.pickle({c})", "domain classes pickle through _pickle_array",
-                  f"{c} is not registered with copyreg to pickle through _pickle_array: unpickled domains are not interned", dm.rel)
-    pa = prog.funcs.get("funsor.domains::_pickle_array")
-    if pa is None:
-        col.violation("funsor.domains::_pickle_array", "_pickle_array not found", dm.rel)
-    else:
-        rets = [n for n in walk_no_nested(pa.node) if isinstance(n, ast.Return)]
-        good = any(isinstance(r.value, ast.Tuple) and len(r.value.elts) == 2 and refs.resolve(r.value.elts[0]) == "operator.getitem"
-                   and isinstance(r.value.elts[1], ast.Tuple) and norm(r.value.elts[1].elts[0]) == "Array" for r in rets)
-        col.check(good, "funsor.domains::_pickle_array", "parametrised domains are rebuilt with Array[dtype, shape] (the interning __getitem__)",
-                  "_pickle_array does not rebuild domains through Array[...]: unpickled domains are new classes", pa.loc())
 
 
 # ---------------------------------------------------------------------- R07.9
